@@ -424,10 +424,10 @@ fn probe3(rng: &mut Rng) {
 pub fn run(rng: &mut Rng, n: usize) {
     for _ in 0..n {
         match rng.below(10) {
-            0..=3 => align2(rng),
-            4 | 5 => probe2(rng),
-            6 | 7 => align3(rng),
-            _ => probe3(rng),
+            0..=3 => case("align.case", "c07.library_call_panics", || align2(rng)),
+            4 | 5 => case("align.case", "c07.library_call_panics", || probe2(rng)),
+            6 | 7 => case("align.case", "c07.library_call_panics", || align3(rng)),
+            _ => case("align.case", "c07.library_call_panics", || probe3(rng)),
         }
     }
 }
